@@ -24,6 +24,7 @@ def rows(a):
 
 
 _FL = [0]
+_NOISE = np.random.default_rng(1919)
 
 
 def energy_record(x, dt, tts, nodal, ru, rd, stt, trim, start, scalar_tt=False, dtype=float):
@@ -35,6 +36,10 @@ def energy_record(x, dt, tts, nodal, ru, rd, stt, trim, start, scalar_tt=False, 
     f_ = lambda b, j: [bool(b), np.bool_(b), int(bool(b))][(_FL[0] + j) % 3]          # flags as python bool / numpy bool / int
     kw = dict(nodal=f_(nodal, 0), up_red=ru, down_red=rd, stt=stt, trim=f_(trim, 1), start=f_(start, 2))
     k = len(tts)
+    if _FL[0] % 2:
+        # other public functions applied to the same object just before, incl. regenerating its velocity with the rectangle rule:
+        # the energy is a function of the record
+        gen.asig_noise(_NOISE, s, rule_switch=True)
     try:
         out = surface.calc_surface_energy(s, tt_arg, **kw)
         cum = surface.calc_cum_abs_surface_energy(s, tt_arg, **kw)
